@@ -16,9 +16,9 @@ import (
 // compiledSet describes a defined-set type that keeps a compiled form next to its pattern list.
 type compiledSet struct {
 	T       *types.Named
-	Rebuild []*ssa.Function      // methods that recompute the compiled fields
-	Sources map[*types.Var]bool  // fields the rebuild reads (the pattern lists)
-	Derived map[*types.Var]bool  // fields the rebuild writes (the compiled form)
+	Rebuild []*ssa.Function     // methods that recompute the compiled fields
+	Sources map[*types.Var]bool // fields the rebuild reads (the pattern lists)
+	Derived map[*types.Var]bool // fields the rebuild writes (the compiled form)
 }
 
 // findCompiledSets: struct types of the table package having a parameterless method that stores
@@ -341,16 +341,15 @@ func sameRecv(a, b ssa.Value) bool {
 
 func init() {
 	register(&Check{
-		ID: "C13",
+		ID:   "C13",
 		Expl: "Decides only the cache-coherence clause 'editing a set leaves the compiled form equivalent to the edited pattern list' in its structural form: for every defined-set type that keeps compiled matchers next to its pattern lists (found from the code: a parameterless method that recomputes 'matchers' from other fields), every function that modifies a pattern list — directly or through the embedded list's Append/Remove/Replace — reaches that rebuild method on every path to a successful return; and (E2.index-owned) the any-match indexes derived from the matcher list own their bitmaps (no aliasing of a matcher's bitmap, no write through the matcher list).",
-		Not: "That the compiled matchers (exact, wildcard, bitmap, any-index fast paths) decide what the regular expressions decide is a statement about strings and is not decided.",
+		Not:  "That the compiled matchers (exact, wildcard, bitmap, any-index fast paths) decide what the regular expressions decide is a statement about strings and is not decided.",
 		Run: func(c *Ctx) {
 			c.ruleCompiledSetCoherence()
 			c.ruleIndexOwned()
 		},
 	})
 }
-
 
 // knownNonNil: block b is only reachable over an edge that establishes v != nil.
 func knownNonNil(v ssa.Value, b *ssa.BasicBlock) bool {
